@@ -645,6 +645,9 @@ func (c *compiler) compileIf(e *If) error {
 		return err
 	}
 	f()
+	if verifOptOff(1) && pc == len(c.codes) {
+		c.append(&code{op: opnop}) // keep the opexpbegin/opexpend pair
+	}
 	if pc == len(c.codes) {
 		c.codes = c.codes[:pc-1]
 	} else {
@@ -672,6 +675,9 @@ func (c *compiler) compileIf(e *If) error {
 			// optimize constant results
 			//    opdup, ..., opjumpifnot, opconst, opjump, opconst
 			// => opnop, ..., opjumpifnot, oppush,  opjump, oppush
+			if verifOptOff(2) {
+				return
+			}
 			if pcc+4 == len(c.codes) &&
 				c.codes[pcc+1] != nil && c.codes[pcc+1].op == opconst &&
 				c.codes[pcc+3] != nil && c.codes[pcc+3].op == opconst {
@@ -1309,6 +1315,9 @@ func (c *compiler) compileObject(e *Object) error {
 	}
 	c.append(&code{op: opobject, v: len(e.KeyVals)})
 	// optimize constant objects
+	if verifOptOff(3) {
+		return nil
+	}
 	l := len(e.KeyVals)
 	if pc+l*3+1 != len(c.codes) {
 		return nil
@@ -1409,6 +1418,9 @@ func (c *compiler) compileArray(e *Array) error {
 		return nil
 	}
 	// optimize constant arrays
+	if verifOptOff(4) {
+		return nil
+	}
 	if (len(c.codes)-pc)%3 != 0 {
 		return nil
 	}
@@ -1584,6 +1596,9 @@ func (c *compiler) compileCallInternal(
 		if err := c.compileFuncDef(&FuncDef{Name: name, Body: args[i]}, false); err != nil {
 			return err
 		}
+		for internal && verifOptOff(5) && len(c.codes)-pc < 4 {
+			c.append(&code{op: opnop}) // too long to be inlined below
+		}
 		if internal {
 			switch len(c.codes) - pc {
 			case 2: // optimize identity argument (opscope, opret)
@@ -1615,6 +1630,9 @@ func (c *compiler) compileCallInternal(
 			c.append(&code{op: oppushpc, v: pc})
 		}
 		if i == indexing {
+			if verifOptOff(6) && c.codes[len(c.codes)-2].op == opexpbegin {
+				c.append(&code{op: opnop}) // keep the opexpbegin/opexpend pair
+			}
 			if c.codes[len(c.codes)-2].op == opexpbegin {
 				c.codes[len(c.codes)-2] = c.codes[len(c.codes)-1]
 				c.codes = c.codes[:len(c.codes)-1]
@@ -1647,6 +1665,9 @@ func (c *compiler) lazy(f func() *code) func() {
 }
 
 func (c *compiler) optimizeTailRec() {
+	if verifOptOff(10) {
+		return
+	}
 	var pcs []int
 	scopes := map[int]bool{}
 L:
@@ -1691,6 +1712,9 @@ L:
 }
 
 func (c *compiler) optimizeCodeOps() {
+	if verifOptOff(11) {
+		return
+	}
 	for i, next := len(c.codes)-1, (*code)(nil); i >= 0; i-- {
 		code := c.codes[i]
 		switch code.op {
